@@ -224,16 +224,28 @@ fn gap_strategy() -> BoxedStrategy<Gap> {
 fn rate_strategy(tier: Tier) -> BoxedStrategy<RateCase> {
     let n = tier.pick(400, 2000);
     let call = prop_oneof![4 => Just(Call::Tick), 2 => Just(Call::SetMessage), 1 => Just(Call::SetLength), 3 => Just(Call::Inc), 1 => Just(Call::SetPosition), 1 => Just(Call::Dec)];
-    (
-        prop_oneof![2 => prop_oneof![Just(1u8), Just(3), Just(7), Just(20), Just(30), Just(60), Just(255)], 1 => 1u8..=255],
+    let rate = || prop_oneof![2 => prop_oneof![Just(1u8), Just(3), Just(7), Just(20), Just(30), Just(60), Just(255)], 1 => 1u8..=255];
+    let free = (rate(), 0u8..3, proptest::collection::vec((gap_strategy(), call.clone()), 30..n)).prop_map(|(rate, mode, calls)| RateCase { rate, mode, calls });
+    // the burst is used up at the creation instant, then requests arrive exactly at, one ns before and
+    // one ns after whole refresh intervals (the boundary of "at least one refresh interval after the
+    // last painted frame"), then anything
+    let edge = (0u8..3, -1i8..=1).prop_map(|(k, d)| Gap::KInterval(k + 1, d));
+    let boundary = (
+        rate(),
         0u8..3,
-        proptest::collection::vec((gap_strategy(), call), 30..n),
+        20usize..24,
+        proptest::collection::vec((edge, prop_oneof![Just(Call::Tick), Just(Call::SetMessage), Just(Call::SetLength)]), 5..60),
+        proptest::collection::vec((gap_strategy(), call), 0..60),
     )
-        .prop_map(|(rate, mode, calls)| RateCase { rate, mode, calls })
-        .boxed()
+        .prop_map(|(rate, mode, burst, edges, tail)| {
+            let mut calls: Vec<(Gap, Call)> = (0..burst).map(|_| (Gap::Zero, Call::Tick)).collect();
+            calls.extend(edges);
+            calls.extend(tail);
+            RateCase { rate, mode, calls }
+        });
+    prop_oneof![3 => free, 1 => boundary].boxed()
 }
 
-// ------------------------------------------------------------------------------------------
 // position bucket: burst 10, one token per millisecond
 
 #[derive(Debug, Clone, Serialize, Deserialize)]
